@@ -124,5 +124,27 @@ def spellings_bounded(p):
                     if k not in o or o[k].shape != ref[k].shape or not np.allclose(o[k], ref[k], atol=1e-9):
                         failures.append(dict(scenario=tag, what=f"{name} differs from v2-yaml in {k}"))
                         break
+        # history independence: several configure() calls in ONE process; a set-up without grid section must take ITS OWN
+        # forcing file as grid file whatever was configured before
+        try:
+            import shutil
+
+            from ladim.configure import configure
+
+            shutil.copy(d / "f_000.nc", d / "g_000.nc")
+            base = (d / "B" / "v2.toml").read_text()
+            other = base.replace(str(d / "f_00?.nc"), str(d / "g_000.nc")).replace("v2t.nc", "v2g.nc")
+            (d / "B" / "v2g.toml").write_text(other)
+            cases += 1
+            seq = [configure(d / "B" / "v2.toml"), configure(d / "B" / "v2g.toml"), configure(d / "B" / "v2.toml")]
+            for i, c in enumerate(seq):
+                import glob
+
+                first = sorted(glob.glob(str(c["forcing"]["filename"])))[0]
+                if str(c["grid"].get("filename")) != first:
+                    failures.append(dict(scenario="history", what=f"configure() call #{i + 1} in one process: grid section omitted but grid file {c['grid'].get('filename')} is not this set-up's first forcing file {first}"))
+                    break
+        except BaseException as e:  # noqa: BLE001
+            failures.append(dict(scenario="history", what=f"raised {type(e).__name__}: {str(e)[:120]}"))
         samples.append(dict(scenarios=["A: explicit grid file + subgrid, discrete release", "B: grid omitted, wildcard forcing name, continuous release", "C: grid file, '*' wildcard, continuous"], spellings=["v2 YAML (explicit empty ibm/warm_start)", "v2 TOML (optional sections omitted)", "v1 YAML"]))
-    return dict(cases=cases, failures=failures[:10], samples=samples, bound="3 scenarios x 3 spellings, 18-step runs, outputs compared variable by variable")
+    return dict(cases=cases, failures=failures[:10], samples=samples, bound="3 scenarios x 3 spellings, 18-step runs, outputs compared variable by variable; one sequence of 3 configure() calls in one process")
